@@ -1,15 +1,28 @@
 #!/usr/bin/env python3
-"""mkcanary.py <name> <repo-relative file> <<< JSON {"old": "...", "new": "..."}  -> /verif/canaries/<name>.patch
-Builds a unified diff against the CURRENT /repo file by exact text replacement (fails if old is absent)."""
+"""mkcanary.py <name> [<repo-relative file>] <<< JSON  -> /verif/canaries/<name>.patch
+
+JSON is {"old": "...", "new": "..."} (with the file on the command line) or a list of
+{"file": "...", "old": "...", "new": "..."} (several replacements, possibly in several files).
+Builds a unified diff against the CURRENT /repo files by exact text replacement (fails if an old
+text is absent or ambiguous)."""
 import sys, json, subprocess, tempfile, os
-name, rel = sys.argv[1], sys.argv[2]
+name = sys.argv[1]
 spec = json.load(sys.stdin)
-src = open('/repo/' + rel).read()
-assert src.count(spec['old']) == 1, "old text must occur exactly once (found %d)" % src.count(spec['old'])
-new = src.replace(spec['old'], spec['new'])
+if isinstance(spec, dict):
+    spec = [dict(spec, file=sys.argv[2])]
+files = {}
+for s in spec:
+    rel = s['file']
+    src = files.get(rel) or open('/repo/' + rel).read()
+    assert src.count(s['old']) == 1, "%s: old text must occur exactly once (found %d): %r" % (rel, src.count(s['old']), s['old'][:60])
+    files[rel] = src.replace(s['old'], s['new'])
+out = ''
 with tempfile.TemporaryDirectory() as d:
-    os.makedirs(os.path.join(d, 'a', os.path.dirname(rel))); os.makedirs(os.path.join(d, 'b', os.path.dirname(rel)))
-    open(os.path.join(d, 'a', rel), 'w').write(src); open(os.path.join(d, 'b', rel), 'w').write(new)
-    out = subprocess.run(['diff', '-u', 'a/' + rel, 'b/' + rel], cwd=d, capture_output=True, text=True).stdout
+    for rel, new in sorted(files.items()):
+        os.makedirs(os.path.join(d, 'a', os.path.dirname(rel)), exist_ok=True)
+        os.makedirs(os.path.join(d, 'b', os.path.dirname(rel)), exist_ok=True)
+        open(os.path.join(d, 'a', rel), 'w').write(open('/repo/' + rel).read())
+        open(os.path.join(d, 'b', rel), 'w').write(new)
+        out += subprocess.run(['diff', '-u', 'a/' + rel, 'b/' + rel], cwd=d, capture_output=True, text=True).stdout
 open('/verif/canaries/%s.patch' % name, 'w').write(out)
-print(out[:400])
+print(out[:600])
